@@ -4,7 +4,8 @@
 (* no archive, and four names whose versions include binary patches:                             *)
 (*   p1  base in A1; COPY b1->q2 in A2; BSD0 q2->q3 in A3; BSD0 b1->q4 in A4                     *)
 (*   p2  base in A1; BSD0 with a backward seek b2->r3 in A3                                      *)
-(*   p3  base in A1; an entry flagged as patch that is not a PTCH file in A2                     *)
+(*   p3  base in A1; an entry flagged as patch that is not a PTCH file in A2; patches whose       *)
+(*       md5_after field is all zero and whose payload is damaged in A3 (BSD0) and A4 (COPY)      *)
 (*   p4  base in A4; COPY b4->s2 in A2; a patch whose payload fails its digest in A1             *)
 (*   p5  10 KB files: raw multi-sector base in A1; COPY stored as sector table + compressed       *)
 (*       sectors in A2; BSD0 stored single-unit compressed in A3; BSD0 with backward seek in A4   *)
@@ -26,10 +27,10 @@ StdWorld ==
                p4 |-> Patch("b4", "s2", "copy"), p5 |-> PatchS("Br5", "Bt5v2", "copy", "zsect"),
                n6 |-> Plain("Bt6"), lf |-> Plain("lfA2")]),
    A3 |-> Row([n1 |-> Plain("c13"), n2 |-> Plain("c23"),
-               p1 |-> Patch("q2", "q3", "bsd0"), p2 |-> Patch("b2", "r3", "bsd0neg"),
+               p1 |-> Patch("q2", "q3", "bsd0"), p2 |-> Patch("b2", "r3", "bsd0neg"), p3 |-> Patch("b3", "w3", "zerobsd0"),
                p5 |-> PatchS("Bt5v2", "v53", "bsd0", "zsingle"), lf |-> Plain("lfA3")]),
    A4 |-> Row([n1 |-> Plain("c14"), n5 |-> Plain("c54"),
-               p1 |-> Patch("b1", "q4", "bsd0"), p4 |-> Plain("b4"), p5 |-> Patch("v53", "v54", "bsd0neg"),
+               p1 |-> Patch("b1", "q4", "bsd0"), p3 |-> Patch("b3", "w4", "zerocopy"), p4 |-> Plain("b4"), p5 |-> Patch("v53", "v54", "bsd0neg"),
                n6 |-> Plain("Br6"), lf |-> Plain("lfA4")])]
 StdFormat == [A1 |-> [ver |-> 2, shift |-> 3], A2 |-> [ver |-> 3, shift |-> 3],
               A3 |-> [ver |-> 1, shift |-> 3], A4 |-> [ver |-> 4, shift |-> 5]]
